@@ -29,6 +29,8 @@ def main(tier, seed):
         out = []
         for b in toolrun.BACKENDS:
             prog = tooltier.backend_program(b, seed, i, avoid_known=False, extra_profile=(dict(opt_borrowed_params=True) if i % 5 == 2 else None))
+            if i % 6 == 1 and tooltier.add_zst_error(prog, random.Random("c15z/%s/%s/%s" % (seed, i, b))):
+                tooltier.emit_rust.assign_abi_names(prog)
             if i % 4 == 3 and tooltier.add_traits(prog, random.Random("c15tr/%s/%s/%s" % (seed, i, b)), b):
                 tooltier.emit_rust.assign_abi_names(prog)
             prods = tooltier.prog_productions(prog)
